@@ -7263,6 +7263,353 @@ fn xs_dml(rep: &mut Report, cx: &mut XCtx, t: &[XRow], u: &[URow], r: &mut Rng, 
     }
 }
 
+// ---- INSERT … VALUES with several tuples of DIFFERENT lengths (Parse/Insert.lean, op `insrows`).
+// The row a tuple produces is a function of the target column list and of THAT tuple only: the first
+// min(|columns|, |tuple|) columns get the tuple's values, every other column of the table is NULL / absent —
+// whatever the other tuples of the statement are.  The statement runs as text on database A; on the twin B the
+// rows are built by `ins_row` (written from the model's rule) and inserted by direct RelationalEngine::insert
+// calls; ids, the table state row by row, and the model's rows are compared.  xsel.insert.directed runs first
+// (the minimal history: a longer tuple followed by a shorter one, and its neighbours), then xsel.insert.random.
+// A failing statement is shrunk (tuples, then trailing values, then the column list).
+
+#[derive(Clone, Debug, PartialEq)]
+enum IV {
+    Null,
+    Int(i64),
+    Str(&'static str),
+}
+
+impl IV {
+    fn sql(&self) -> String {
+        match self {
+            IV::Null => "NULL".into(),
+            IV::Int(n) => n.to_string(),
+            IV::Str(s) => format!("'{s}'"),
+        }
+    }
+    fn rv(&self) -> RV {
+        match self {
+            IV::Null => RV::Null,
+            IV::Int(n) => RV::Int(*n),
+            IV::Str(s) => RV::String(s.to_string()),
+        }
+    }
+    fn token(&self) -> String {
+        match self {
+            IV::Null => "n".into(),
+            IV::Int(n) => n.to_string(),
+            IV::Str(s) => format!("s{s}"),
+        }
+    }
+}
+
+#[derive(Clone, Debug, PartialEq)]
+struct InsCase {
+    /// None: no column list, the values go to the table's columns in schema order
+    cols: Option<Vec<&'static str>>,
+    tuples: Vec<Vec<IV>>,
+}
+
+const INS_SCHEMA: [&str; 3] = ["a", "b", "name"];
+
+impl InsCase {
+    fn target(&self) -> Vec<&'static str> {
+        self.cols.clone().unwrap_or_else(|| INS_SCHEMA.to_vec())
+    }
+    fn text(&self) -> String {
+        let cl = self.cols.as_ref().map_or(String::new(), |c| format!(" ({})", c.join(", ")));
+        let tuples: Vec<String> = self.tuples.iter().map(|t| format!("({})", t.iter().map(IV::sql).collect::<Vec<_>>().join(", "))).collect();
+        format!("INSERT INTO t{cl} VALUES {}", tuples.join(", "))
+    }
+    fn model_line(&self) -> String {
+        format!(
+            "insrows {} {} {}",
+            INS_SCHEMA.join(","),
+            self.cols.as_ref().map_or("-".to_string(), |c| c.join(",")),
+            self.tuples.iter().map(|t| t.iter().map(IV::token).collect::<Vec<_>>().join(",")).collect::<Vec<_>>().join(";")
+        )
+    }
+    fn shape(&self) -> &'static str {
+        let l: Vec<usize> = self.tuples.iter().map(Vec::len).collect();
+        let down = l.windows(2).any(|w| w[1] < w[0]);
+        let up = l.windows(2).any(|w| w[1] > w[0]);
+        match (l.len(), down, up) {
+            (0 | 1, _, _) => "single_tuple",
+            (_, true, true) => "shorter_and_longer_mixed",
+            (_, true, false) => "shorter_after_longer",
+            (_, false, true) => "longer_after_shorter",
+            _ => "equal_lengths",
+        }
+    }
+}
+
+/// The row of ONE tuple: column list zipped with the tuple (a later duplicate column wins); nothing else.
+fn ins_row(target: &[&'static str], tuple: &[IV]) -> std::collections::HashMap<String, RV> {
+    let mut m = std::collections::HashMap::new();
+    for (c, v) in target.iter().zip(tuple.iter()) {
+        m.insert(c.to_string(), v.rv());
+    }
+    m
+}
+
+fn ins_value_for(r: &mut Rng, col: &str) -> IV {
+    if r.chance(1, 6) {
+        IV::Null
+    } else if col == "name" {
+        IV::Str(*r.pick(&["x", "y", "z", "p"]))
+    } else {
+        IV::Int(r.below(90) as i64 + 1)
+    }
+}
+
+/// rows of database `q` with the given ids, cells in schema order, NULL and absent cells both left out
+fn ins_rows_of(q: &query_router::QueryRouter, ids: &[u64]) -> String {
+    let rows = q.relational().select("t", Condition::True).unwrap_or_default();
+    let shown: Vec<String> = ids
+        .iter()
+        .map(|id| match rows.iter().find(|r| r.id == *id) {
+            None => "?".to_string(),
+            Some(r) => {
+                let cells: Vec<String> = INS_SCHEMA
+                    .iter()
+                    .filter_map(|c| match r.values.iter().find(|(k, _)| k == c).map(|(_, v)| v) {
+                        None | Some(RV::Null) => None,
+                        Some(RV::Int(n)) => Some(format!("{c}={n}")),
+                        Some(RV::String(s)) => Some(format!("{c}=s{s}")),
+                        Some(o) => Some(format!("{c}=?{o:?}")),
+                    })
+                    .collect();
+                if cells.is_empty() { "_".to_string() } else { cells.join(",") }
+            }
+        })
+        .collect();
+    format!("rows {}", if shown.is_empty() { "-".to_string() } else { shown.join(";") })
+}
+
+struct InsEval {
+    /// (oracle class, description)
+    viol: Vec<(&'static str, String)>,
+    /// rows the statement created on A, in statement order (None: the statement did not answer with ids)
+    real_rows: Option<String>,
+}
+
+fn ins_eval(t: &[XRow], c: &InsCase) -> InsEval {
+    let (a, b) = (xdb(t, &[]), xdb(t, &[]));
+    let text = c.text();
+    let text2 = text.clone();
+    let res = guarded(std::panic::AssertUnwindSafe(|| a.q.execute_parsed(&text2)));
+    let mut viol = Vec::new();
+    let target = c.target();
+    let mut ids = Vec::new();
+    let mut err = None;
+    for tp in &c.tuples {
+        match b.q.relational().insert("t", ins_row(&target, tp)) {
+            Ok(id) => ids.push(id),
+            Err(e) => {
+                err = Some(format!("error {e:?}"));
+                break;
+            }
+        }
+    }
+    // an engine error (none is generated on purpose): the kind only, the router wraps the engine's error
+    let want = match &err {
+        Some(_) => "error".to_string(),
+        None => format!("ids {ids:?}"),
+    };
+    let (got, real_ids) = match &res {
+        Ok(r) => {
+            let g = canon_qr(r);
+            (if g.starts_with("error") { "error".to_string() } else { g }, if let Ok(query_router::QueryResult::Ids(v)) = r { Some(v.clone()) } else { None })
+        }
+        Err(p) => (format!("panic {p}"), None),
+    };
+    // table state, row by row
+    let rows_of = |q: &query_router::QueryRouter| -> Vec<String> {
+        let mut v: Vec<String> = q
+            .relational()
+            .select("t", Condition::True)
+            .unwrap_or_default()
+            .iter()
+            .map(|r| {
+                let mut cols: Vec<String> = r.values.iter().filter(|(k, v)| k != "_id" && !matches!(v, RV::Null)).map(|(k, v)| format!("{k}={v:?}")).collect();
+                cols.sort();
+                format!("#{} {}", r.id, cols.join(","))
+            })
+            .collect();
+        v.sort();
+        v
+    };
+    let (ra, rb) = (rows_of(&a.q), rows_of(&b.q));
+    if ra != rb {
+        let first = ra.iter().zip(rb.iter()).find(|(x, y)| x != y).map(|(x, y)| format!("row [{x}] by text, [{y}] by the direct call"))
+            .unwrap_or_else(|| format!("{} rows by text, {} rows by direct calls", ra.len(), rb.len()));
+        viol.push(("query_router::QueryRouter::exec_insert/values_row_differs_from_direct_call",
+            format!("after `{text}` on a table of {} rows: {first} (every row is built from the column list and its own tuple only)", t.len())));
+    }
+    if got != want {
+        viol.push(("query_router::QueryRouter::exec_insert/values_result_differs_from_direct_call", format!("`{text}` answered {got} ; the direct calls {want}")));
+    }
+    InsEval { viol, real_rows: real_ids.map(|v| ins_rows_of(&a.q, &v)) }
+}
+
+fn ins_shrink(t: &[XRow], c: &InsCase, class: &str) -> (Vec<XRow>, InsCase) {
+    let fails = |t: &[XRow], c: &InsCase| !c.tuples.is_empty() && ins_eval(t, c).viol.iter().any(|(k, _)| *k == class);
+    let mut t = t.to_vec();
+    let mut c = c.clone();
+    if fails(&[], &c) {
+        t.clear();
+    }
+    let c0 = c.clone();
+    c.tuples = shrink_list(&c.tuples, &mut |tp: &[Vec<IV>]| fails(&t, &InsCase { tuples: tp.to_vec(), ..c0.clone() }));
+    // trailing values of every tuple
+    let mut progress = true;
+    while progress {
+        progress = false;
+        for i in 0..c.tuples.len() {
+            if c.tuples[i].len() > 1 {
+                let mut d = c.clone();
+                d.tuples[i].pop();
+                if fails(&t, &d) {
+                    c = d;
+                    progress = true;
+                }
+            }
+        }
+    }
+    // the column list: absent, or in schema order
+    for cand in [None, Some(INS_SCHEMA.to_vec())] {
+        let d = InsCase { cols: cand, ..c.clone() };
+        if d == c {
+            break;
+        }
+        if fails(&t, &d) {
+            c = d;
+            break;
+        }
+    }
+    (t, c)
+}
+
+fn ins_case(m: &mut Model, rep: &mut Report, cx: &mut XCtx, t: &[XRow], c: &InsCase, stream: &str) {
+    let text = c.text();
+    rep.case(stream, Some(&format!("{text}|{}", t.len())));
+    rep.hit(&format!("xsel.insert.shape.{}", c.shape()));
+    rep.hit(match &c.cols {
+        None => "xsel.insert.columns.none_schema_order",
+        Some(v) if v.as_slice() == &INS_SCHEMA[..v.len()] => "xsel.insert.columns.listed_in_schema_order",
+        Some(_) => "xsel.insert.columns.listed_permuted",
+    });
+    if c.tuples.iter().any(|tp| tp.len() < c.target().len()) {
+        rep.hit("xsel.insert.tuple_omits_trailing_columns");
+    }
+    let ev = ins_eval(t, c);
+    for (class, what) in &ev.viol {
+        rep.hit(&format!("xsel.violation.{class}"));
+        if cx.reported.insert(class.to_string()) {
+            let (ts, cs) = ins_shrink(t, c, class);
+            let what = ins_eval(&ts, &cs).viol.iter().find(|(k, _)| k == class).map_or(what.clone(), |(_, w)| w.clone());
+            rep.violation(class, &what, json!({"text": cs.text(), "tables": x_rows_json(&ts, &[]), "model_op": cs.model_line(), "unshrunk_text": text}));
+        }
+    }
+    if cx.model_on {
+        if let Some(real) = &ev.real_rows {
+            let line = c.model_line();
+            let ans = m.ask(&line);
+            if !rep.compare("xsel.model.insert", || json!({"text": text, "tables": x_rows_json(t, &[]), "model_op": line}), real, &ans) {
+                cx.model_on = false;
+            }
+        }
+    }
+}
+
+fn ins_directed(m: &mut Model, rep: &mut Report, cx: &mut XCtx) {
+    use IV::*;
+    let t0: Vec<XRow> = vec![];
+    let t1 = vec![XRow { a: Some(5), b: None, name: Some("y") }];
+    let cases: Vec<InsCase> = vec![
+        // the minimal history: a full tuple, then a shorter one (no column list)
+        InsCase { cols: None, tuples: vec![vec![Int(1), Int(10), Str("x")], vec![Int(2)]] },
+        InsCase { cols: None, tuples: vec![vec![Int(1), Int(10), Str("x")], vec![Int(2), Int(20)], vec![Int(3)]] },
+        // its neighbours: equal lengths, longer after shorter, single short tuple, short-long-short
+        InsCase { cols: None, tuples: vec![vec![Int(1), Int(10)], vec![Int(2), Int(20)]] },
+        InsCase { cols: None, tuples: vec![vec![Int(1)], vec![Int(2), Int(20), Str("y")]] },
+        InsCase { cols: None, tuples: vec![vec![Int(1)]] },
+        InsCase { cols: None, tuples: vec![vec![Int(1)], vec![Int(2), Int(20), Str("y")], vec![Int(3), Int(30)], vec![Int(4)]] },
+        // explicit column list, permuted
+        InsCase { cols: Some(vec!["a", "name", "b"]), tuples: vec![vec![Int(7), Str("z"), Int(70)], vec![Int(8), Str("p")]] },
+        InsCase { cols: Some(vec!["name", "b", "a"]), tuples: vec![vec![Str("x"), Int(1), Int(2)], vec![Str("y")], vec![Str("z"), Int(3)]] },
+        InsCase { cols: Some(vec!["b", "a"]), tuples: vec![vec![Int(1), Int(2)], vec![Int(3)]] },
+        InsCase { cols: Some(vec!["b", "a"]), tuples: vec![vec![Int(3)], vec![Int(1), Int(2)]] },
+        InsCase { cols: Some(vec!["a", "b", "name"]), tuples: vec![vec![Int(1), Int(2), Str("x")], vec![Null, Int(4)], vec![Int(5)]] },
+        // an explicit NULL after a value, an explicit NULL before an omission
+        InsCase { cols: None, tuples: vec![vec![Int(1), Int(10), Str("x")], vec![Int(2), Null, Null], vec![Int(3)]] },
+        InsCase { cols: None, tuples: vec![vec![Int(1), Null, Str("x")], vec![Int(2)]] },
+    ];
+    for c in &cases {
+        for t in [&t0, &t1] {
+            ins_case(m, rep, cx, t, c, "xsel.insert.directed");
+        }
+    }
+    // every pair of tuple lengths × (no list | each permutation of the three columns)
+    let perms: [Option<Vec<&'static str>>; 7] = [
+        None,
+        Some(vec!["a", "b", "name"]),
+        Some(vec!["a", "name", "b"]),
+        Some(vec!["b", "a", "name"]),
+        Some(vec!["b", "name", "a"]),
+        Some(vec!["name", "a", "b"]),
+        Some(vec!["name", "b", "a"]),
+    ];
+    let val = |col: &str, k: i64| if col == "name" { Str(["x", "y", "z"][(k % 3) as usize]) } else { Int(10 * k + 1) };
+    for cols in &perms {
+        let target = cols.clone().unwrap_or_else(|| INS_SCHEMA.to_vec());
+        for l1 in 1..=3usize {
+            for l2 in 1..=3usize {
+                for l3 in [0usize, 1, 3] {
+                    let mut tuples = Vec::new();
+                    for (k, l) in [l1, l2, l3].iter().enumerate() {
+                        if *l > 0 {
+                            tuples.push(target[..*l].iter().map(|c| val(c, k as i64 + 1)).collect::<Vec<_>>());
+                        }
+                    }
+                    ins_case(m, rep, cx, &t0, &InsCase { cols: cols.clone(), tuples }, "xsel.insert.directed");
+                }
+            }
+        }
+    }
+}
+
+fn ins_gen(r: &mut Rng) -> InsCase {
+    let cols: Option<Vec<&'static str>> = if r.chance(1, 3) {
+        None
+    } else {
+        let mut v = INS_SCHEMA.to_vec();
+        r.shuffle(&mut v);
+        let keep = if r.chance(2, 3) { 3 } else { 2 };
+        v.truncate(keep);
+        Some(v)
+    };
+    let target = cols.clone().unwrap_or_else(|| INS_SCHEMA.to_vec());
+    let k = 2 + r.below(4) as usize;
+    let tuples = (0..k)
+        .map(|_| {
+            let l = 1 + r.below(target.len() as u64) as usize;
+            target[..l].iter().map(|c| ins_value_for(r, c)).collect::<Vec<_>>()
+        })
+        .collect();
+    InsCase { cols, tuples }
+}
+
+fn stream_insert(m: &mut Model, rep: &mut Report, rng: &Rng, thorough: bool, cx: &mut XCtx) {
+    let mut r = rng.fork("xsel.insert");
+    let n = if thorough { 3000 } else { 300 };
+    for i in 0..n {
+        let t = if i % 3 == 0 { x_gen_rows(&mut r, false).0 } else { Vec::new() };
+        let c = ins_gen(&mut r);
+        ins_case(m, rep, cx, &t, &c, "xsel.insert.random");
+    }
+}
+
 // ---- graph and vector statement families: LIST / FIND / SHOW EMBEDDINGS / SIMILAR windows, NEIGHBORS, PATH
 
 fn xs_families(m: &mut Model, rep: &mut Report, cx: &mut XCtx, thorough: bool) {
@@ -7658,7 +8005,10 @@ fn main() {
         "xsel.family.update", "xsel.family.insert_rows", "xsel.family.insert_positional", "xsel.family.node_list", "xsel.family.edge_list",
         "xsel.family.find", "xsel.family.show_embeddings", "xsel.family.similar", "xsel.family.neighbors", "xsel.family.path",
         "xsel.table.21_to_60_rows", "xsel.table.0_to_8_rows", "xsel.order.outer_join_rows_with_missing_and_null_sort_keys",
-        "xsel.order.outer_join_rows_with_missing_and_null_sort_keys.more_than_20_rows", "xsel.regression.order_by_on_outer_join_rows.sorted"] {
+        "xsel.order.outer_join_rows_with_missing_and_null_sort_keys.more_than_20_rows", "xsel.regression.order_by_on_outer_join_rows.sorted",
+        "xsel.insert.shape.single_tuple", "xsel.insert.shape.equal_lengths", "xsel.insert.shape.shorter_after_longer", "xsel.insert.shape.longer_after_shorter",
+        "xsel.insert.shape.shorter_and_longer_mixed", "xsel.insert.columns.none_schema_order", "xsel.insert.columns.listed_in_schema_order",
+        "xsel.insert.columns.listed_permuted", "xsel.insert.tuple_omits_trailing_columns"] {
         rep.expected_branches.push(k.to_string());
     }
     directed_known(&mut rep);
@@ -7666,6 +8016,7 @@ fn main() {
     str_directed(&mut m, &mut rep, &mut scx);
     let mut xcx = XCtx { reported: Default::default(), model_on: true };
     let t_x = Instant::now();
+    ins_directed(&mut m, &mut rep, &mut xcx);
     xs_directed(&mut m, &mut rep, &mut xcx, &rng);
     xs_candidates(&mut rep);
     xs_families(&mut m, &mut rep, &mut xcx, args.thorough);
@@ -7689,6 +8040,7 @@ fn main() {
     stream_adversarial(&mut rep, &rng, args.thorough);
     stream_exec(&mut rep, &rng, args.thorough);
     stream_xsel(&mut m, &mut rep, &rng, args.thorough, &mut xcx);
+    stream_insert(&mut m, &mut rep, &rng, args.thorough, &mut xcx);
     rep.note("expr.* / stmt.* / soup: postfix/special forms (IS NULL, IN, BETWEEN, LIKE, calls, CASE, arrays, tuples, qualified names) are opaque atoms of the Pratt model `parse`; full.*: the same forms are tokens and trees of the complete expression grammar model (Full.lean, ops `full expr|stmt`, `fprint`, `fframes`), compared with the real ExprParser and with the WHERE clause of the real statement parser; stmt-mode inputs the model answers `outside` (EXISTS, CAST, IN ( SELECT) are counted under full.stmt.outside and not compared");
     rep.note("statement-parser error behaviour (trailing tokens are not rejected by parse()) is outside the expression-core model; stmt.* streams compare accepted expressions and TooDeep answers only");
     rep.write(&args.out);
